@@ -45,6 +45,14 @@ pub fn family(kind: &str, d: usize) -> (Vec<(String, String)>, String, Result<St
             files.push(("mi.svh".into(), "y\n`INC\n".into()));
             (files, "mi_top.sv".into(), Err("*ExceedRecursiveLimit".into()))   // some Include nesting around it
         }
+        // a cycle in which every link is an `include whose file name is a macro usage: macro k expands to `include `K(k+1); no file is ever
+        // opened, so only the macro depth can end the recursion — the resolver call for the file name has to step it
+        "named-include-cycle" => {
+            let mut s = String::new();
+            for k in 0..d { s.push_str(&format!("`define N{} `include `N{}\n", k, (k + 1) % d)); }
+            s.push_str("`include `N0\n");
+            (vec![("ni.sv".into(), s)], "ni.sv".into(), Err("*ExceedRecursiveLimit".into()))
+        }
         // a file that includes itself through a chain of d macros: every include level costs d levels of macro depth, so both counters
         // have to be carried across both recursion paths for the run to end before the stack does
         "kmacro-include-cycle" => {
@@ -123,11 +131,12 @@ pub fn main(args: &[String]) {
     for &d in &depths { jobs.push(("include-chain".into(), d)); jobs.push(("macro-chain".into(), d)); if d <= 70 { jobs.push(("mixed-chain".into(), d)); } }
     for d in 1..=6 { jobs.push(("include-cycle".into(), d)); jobs.push(("macro-cycle".into(), d)); }
     jobs.push(("macro-include-cycle".into(), 1));
+    for d in [1usize, 2, 3] { jobs.push(("named-include-cycle".into(), d)); }
     for d in [2usize, 3, 8, 30, 60] { jobs.push(("kmacro-include-cycle".into(), d)); }
     for (dd, m) in [(63usize, 3usize), (40, 26), (60, 10), (10, 60), (1, 63), (32, 33), (62, 64), (5, 5)] {
         for k in ["grid-text", "grid-name", "grid-body"] { jobs.push((k.into(), dd * 100 + m)); }
     }
-    let mut rep = Report::new("schematic families run each in a child process with a 1 GiB stack: include chains / macro chains / alternating macro-include chains of depth d (all depths 1..140 in the thorough tier), include cycles and macro cycles of length 1..6, a macro that expands to an include of a file that uses the macro, two-dimensional legal chains (dd include levels, then m nested macro usages ending in text / in the file name of an `include `MACRO / in an `include directive); expected: fully expanded text up to 64 levels, ExceedRecursiveLimit (wrapped in Include once per include level) beyond; non-trivial = every member; distinct by (family, depth)");
+    let mut rep = Report::new("schematic families run each in a child process with a 1 GiB stack: include chains / macro chains / alternating macro-include chains of depth d (all depths 1..140 in the thorough tier), include cycles and macro cycles of length 1..6, a macro that expands to an include of a file that uses the macro, cycles in which every link is an `include named through a macro (no file is ever opened), two-dimensional legal chains (dd include levels, then m nested macro usages ending in text / in the file name of an `include `MACRO / in an `include directive); expected: fully expanded text up to 64 levels, ExceedRecursiveLimit (wrapped in Include once per include level) beyond; non-trivial = every member; distinct by (family, depth)");
     let jobs = std::sync::Arc::new(jobs);
     let j2 = jobs.clone(); let exe2 = exe.clone(); let root2 = root.clone();
     let results = crate::util::par_map(jobs.len(), 16, move |i| {
